@@ -187,6 +187,11 @@ pub fn gen_case(prop: &str, tier: Tier, seed: u64, idx: u64) -> Option<Case> {
         }
         "C09" => {
             let o = GenOpts { hostile_pct: 10, reorder_pct: 40, audio_pct: 100, meta_pct: 10, encode_pct: 25, nonzero_start_pct: 50, max_video: 12, max_audio: 16, ..Default::default() };
+            if r.chance(1, 40) {
+                // one track longer than 2^32 ticks next to a short one (64-bit media headers)
+                let sc = *r.pick(&[1u64, 10]);
+                return Some(crate::run2::c16_case(r, sc));
+            }
             let mut cfg = crate::gen::hist::gen_cfg(r, &o);
             if cfg.audio_effective().is_none() {
                 cfg.audio = Some(AudioCfg { kind: 1, rate: 48_000, channels: 2 });
